@@ -50,7 +50,32 @@ theorem C03_converges_tolerance_value (k : Nat)
   cases (c.subs s).obsViewEqVal (tolCmp k) 0 <;>
     cases ((c.store 0).filter (fun x => inclOpt (c.subs s).incl 0 (some x))).map (c.subs s).mask <;> simp [tolCmp]
 
+/-- **The tolerance costs at most `k`, on EVERY schedule** (no `ordered`, overlapping writers included, any moment, lossy
+or backpressured, any pace): what a seeded consumer of a Value with tolerance `k` holds after the equivalence check and
+what it would hold had every received change been forwarded are both absent or at most `k` apart — the equivalence
+layer never adds more than the tolerance to whatever the delivery layer below it does. -/
+theorem C03_value_tolerance_all_schedules (k : Nat)
+    (s₀ : Nat → Option Int) (progs : Nat → List (WOp Int)) (opts : Nat → SubOpts Int) (sched : List Act) :
+    let c : Cfg Int := run (initCfg s₀ progs opts) sched
+    ∀ s, (∀ e, e ∈ (c.subs s).obs → e.id = 0) → (c.subs s).updatesOnly = false →
+      match (c.subs s).obsViewEqVal (tolCmp k) 0, (c.subs s).obsView 0 with
+      | none, none => True
+      | some x, some y => (x - y).natAbs ≤ k
+      | _, _ => False := by
+  intro c s hid huo
+  have h := (C03_converges_equiv_value (tolCmp k) (tolCmp_refl k) s₀ progs opts sched s hid
+    (by intro h; rw [huo] at h; cases h)).1
+  revert h
+  cases (c.subs s).obsViewEqVal (tolCmp k) 0 <;> cases (c.subs s).obsView 0 <;> simp [tolCmp]
+
 variable {M : Type}
+
+/-- **No two consecutive deliveries of a Value are equivalent** (what the equivalence is for) — EVERY comparer (nothing
+assumed), every stream, every `last`: of the values `Value.Pull` sends after `last`, none is equivalent to the one sent
+before it. -/
+theorem C03_value_no_equivalent_neighbours (cmp : Option M → Option M → Bool) (evs : List (Event M)) (last : Option M) :
+    noAdjEquiv cmp last ((dedupVal cmp last evs).map (·.new)) :=
+  dedupVal_noAdjEquiv cmp evs last
 
 /-- **Compare-with-the-replaced-value is sound exactly for transitive comparers (1).**  For every reflexive AND
 transitive comparer, every stream of the single id `j`, `prev` = what the view holds: the loop that compares each change
@@ -109,6 +134,18 @@ theorem C03_value_compare_with_previous_unbounded (k : Nat) (hk : 1 ≤ k) (x : 
   refine ⟨rampEvs_ids x n, rampEvs_linked n x _ rfl, rampEvs_dedupPrev k hk n x, ?_⟩
   exact rampEvs_fold n x _ rfl
 
+/-- **The tolerance comparer itself** (`cmp.FloatValueApprox(fraction, margin)` read on integers, `fraction = num/den`;
+tied to the code by the exhaustive K2 table `approx`): it is reflexive and symmetric for every fraction and margin; with
+fraction 0 it is the `tolCmp` of the theorems above; and then a value and its NEGATION are within tolerance exactly when
+twice the magnitude is within the margin — the distance is taken between the values, not between their magnitudes. -/
+theorem C03_tolerance_comparer (num den margin : Nat) (x y : Int) :
+    approxInt num den margin x x = true ∧
+    approxInt num den margin x y = approxInt num den margin y x ∧
+    tolCmp margin (some x) (some y) = approxInt 0 1 margin x y ∧
+    (approxInt 0 1 margin x (-x) = true ↔ 2 * x.natAbs ≤ margin) :=
+  ⟨approxInt_refl num den margin x, approxInt_symm num den margin x y, tolCmp_eq_approxInt margin x y,
+    approxInt_neg margin x⟩
+
 /-- non-vacuity: tolerance 2, seed 3, writes 5 7 9 11 13 (each exactly the tolerance away from its predecessor).
 `Value.Pull` sends 7 and 11 and the receiver ends 2 from the store; the compare-with-previous loop sends nothing and the
 receiver ends 10 from it.  The comparer is reflexive and not transitive. -/
@@ -118,8 +155,10 @@ example :
     (dedupVal (tolCmp 2) (some 3) evs).map (·.new) = [some 7, some 11] ∧
     (dedupPrev (tolCmp 2) (some 3) evs).map (·.new) = [] ∧
     tolCmp 2 (some 3) (some 5) = true ∧ tolCmp 2 (some 5) (some 7) = true ∧ tolCmp 2 (some 3) (some 7) = false ∧
-    -- a sign change of equal magnitude is far beyond the tolerance
-    tolCmp 2 (some 5) (some (-5)) = false := by
+    -- a sign change of equal magnitude is far beyond the tolerance; a relative margin of one half scales with the
+    -- smaller magnitude
+    tolCmp 2 (some 5) (some (-5)) = false ∧ approxInt 1 2 0 8 12 = true ∧ approxInt 1 2 0 8 13 = false ∧
+    approxInt 1 2 0 (-8) 8 = false := by
   decide
 
 end ScVerif.C03
